@@ -127,6 +127,7 @@ float g_limit; /* ghost: the float product 10000 * model of this call */
    Postcondition = the reader contracts above: [ra] in [0,R-1]; [a] in [0,N-1]; [rb] in [ra, min(ra+D,R-1)]; [b] in [a+N/2-h, a+N/2+h],
    each range set exactly once, every index used while building inside the range built one level up. */
 int g_ra, g_a, g_rb;
+#define G_BOUNDED (g_ra > -100000 && g_ra < 100000 && g_a > -100000 && g_a < 100000 && g_rb > -100000 && g_rb < 100000)
 int g_r0_lo, g_r0_hi, g_r1_lo, g_r1_hi, g_r2_lo, g_r2_hi, g_r3_lo, g_r3_hi, g_n1, g_n2, g_n3;
 #define IDX_GROW0(lo, hi) (g_r0_lo = (lo), g_r0_hi = (hi))
 #define IDX_GROW1(ra_, lo, hi)                                                                                        \
@@ -155,7 +156,7 @@ int g_r0_lo, g_r0_hi, g_r1_lo, g_r1_hi, g_r2_lo, g_r2_hi, g_r3_lo, g_r3_hi, g_n1
 #define G_IN (g_ra >= 0 && g_ra < num_rings && g_a >= 0 && g_a < num_detectors_per_ring)
 #define G_RB_IN (g_rb >= g_ra && g_rb <= (g_ra + max_ring_diff < num_rings - 1 ? g_ra + max_ring_diff : num_rings - 1))
 #define CONTRACT_K_fan_ctor                                                                                           \
-  __CPROVER_requires(__CPROVER_is_fresh(self, sizeof(*self)) && CTOR_ARGS_OK && g_n1 == 0 && g_n2 == 0 && g_n3 == 0)  \
+  __CPROVER_requires(__CPROVER_is_fresh(self, sizeof(*self)) && CTOR_ARGS_OK && g_n1 == 0 && g_n2 == 0 && g_n3 == 0 && G_BOUNDED) \
   __CPROVER_assigns(*self, g_r0_lo, g_r0_hi, g_r1_lo, g_r1_hi, g_r2_lo, g_r2_hi, g_r3_lo, g_r3_hi, g_n1, g_n2, g_n3)   \
   __CPROVER_ensures(self->num_rings == num_rings && self->num_detectors_per_ring == num_detectors_per_ring && self->max_ring_diff == max_ring_diff && self->half_fan_size == fan_size / 2) \
   __CPROVER_ensures(g_r0_lo == 0 && g_r0_hi == num_rings - 1)                                                          \
@@ -182,4 +183,99 @@ int g_r0_lo, g_r0_hi, g_r1_lo, g_r1_hi, g_r2_lo, g_r2_hi, g_r3_lo, g_r3_hi, g_n1
   __CPROVER_loop_invariant(g_n3 == (((CT_DONE_A(ra, a) && G_RB_IN) || (g_ra == ra && g_a == a && g_rb >= ra && g_rb < rb)) ? 1 : 0) \
                            && (g_n3 == 1 ==> (g_r3_lo == g_a + num_detectors_per_ring / 2 - self->half_fan_size && g_r3_hi == g_a + num_detectors_per_ring / 2 + self->half_fan_size))) \
   __CPROVER_decreases(max_rb + 1 - rb)
+
+/* ---- GeoData3D: Array<4,float> [ra] in [0,A-1] (axial crystal in block), [a] in [0,H-1] (transaxial crystal in half block),
+   [rb] in [ra, R-1] (only half stored), [b] in [a, a+N-1] (the whole ring, starting at a) ---- */
+struct GEO { int num_axial_crystals_per_block, half_num_transaxial_crystals_per_block, num_rings, num_detectors_per_ring; };
+#define GEO_VALID(s)                                                                                                  \
+  ((s)->num_detectors_per_ring >= 2 && (s)->num_detectors_per_ring <= 4096 && (s)->num_rings >= 1 && (s)->num_rings <= 4096 \
+   && (s)->num_axial_crystals_per_block >= 1 && (s)->num_axial_crystals_per_block <= (s)->num_rings                      \
+   && (s)->half_num_transaxial_crystals_per_block >= 1 && (s)->half_num_transaxial_crystals_per_block <= (s)->num_detectors_per_ring)
+#define GEO_IDX_OK(s, ra, a) ((ra) >= 0 && (ra) < (s)->num_axial_crystals_per_block && (a) >= 0 && (a) < (s)->half_num_transaxial_crystals_per_block)
+int GEO_MIN_B(const struct GEO* self, int a)
+__CPROVER_requires(GEO_VALID(self) && a >= 0 && a < self->half_num_transaxial_crystals_per_block)
+__CPROVER_assigns()
+__CPROVER_ensures(__CPROVER_return_value == a)
+;
+int GEO_MAX_B(const struct GEO* self, int a)
+__CPROVER_requires(GEO_VALID(self) && a >= 0 && a < self->half_num_transaxial_crystals_per_block)
+__CPROVER_assigns()
+__CPROVER_ensures(__CPROVER_return_value == a + self->num_detectors_per_ring - 1)
+;
+int GEO_RB_MIN(const struct GEO* self, int ra, int a)
+__CPROVER_requires(GEO_VALID(self) && GEO_IDX_OK(self, ra, a))
+__CPROVER_assigns()
+__CPROVER_ensures(__CPROVER_return_value == ra)
+;
+int GEO_RB_MAX(const struct GEO* self, int ra, int a)
+__CPROVER_requires(GEO_VALID(self) && GEO_IDX_OK(self, ra, a))
+__CPROVER_assigns()
+__CPROVER_ensures(__CPROVER_return_value == self->num_rings - 1)
+;
+#define GEO_CELL_IN_RANGE(s, i0, i1, i2, i3) (GEO_IDX_OK(s, i0, i1) && (i2) >= (i0) && (i2) <= (s)->num_rings - 1 && (i3) >= (i1) && (i3) <= (i1) + (s)->num_detectors_per_ring - 1)
+static inline float GEO_CELL(const struct GEO* self, int i0, int i1, int i2, int i3)
+{
+  __CPROVER_assert(GEO_CELL_IN_RANGE(self, i0, i1, i2, i3), "GeoData3D element addressed inside its index ranges");
+  g_c0 = i0; g_c1 = i1; g_c2 = i2; g_c3 = i3; ++g_cells;
+  return 0.F;
+}
+#define GEO_PAIR_OK(s, ra, a, rb, b) (GEO_IDX_OK(s, ra, a) && (rb) >= 0 && (rb) < (s)->num_rings && (b) >= 0 && (b) < (s)->num_detectors_per_ring)
+/* is_in_data: the fan is the whole ring, so a pair with valid indices is in the data exactly when rb is in the stored half */
+#define CONTRACT_K_geo_is_in_data                                                                                    \
+  __CPROVER_requires(__CPROVER_is_fresh(self, sizeof(*self)) && GEO_VALID(self) && GEO_PAIR_OK(self, ra, a, rb, b))    \
+  __CPROVER_assigns()                                                                                                  \
+  __CPROVER_ensures(__CPROVER_return_value == ((rb >= ra) ? 1 : 0))
+/* operator(): for a pair that is in the data the element addressed is inside the index ranges: [ra][a][rb][b or b+N] */
+#define CONTRACT_K_geo_select                                                                                        \
+  __CPROVER_requires(__CPROVER_is_fresh(self, sizeof(*self)) && GEO_VALID(self) && GEO_PAIR_OK(self, ra, a, rb, b) && rb >= ra && g_cells == 0) \
+  __CPROVER_assigns(g_c0, g_c1, g_c2, g_c3, g_cells)                                                                   \
+  __CPROVER_ensures(g_cells == 1 && GEO_CELL_IN_RANGE(self, g_c0, g_c1, g_c2, g_c3) && g_c0 == ra && g_c1 == a && g_c2 == rb \
+                    && (g_c3 == b || g_c3 == b + self->num_detectors_per_ring))
+/* constructor: the ranges it builds are the reader contracts above */
+#define GEO_GROW2(ra_, a_, lo, hi)                                                                                    \
+  do                                                                                                                  \
+    {                                                                                                                 \
+      __CPROVER_assert((a_) >= 0 && (a_) <= half_num_transaxial_crystals_per_block - 1, "fan_indices[ra][a] inside the range of a"); \
+      if ((ra_) == g_ra && (a_) == g_a) { g_r2_lo = (lo); g_r2_hi = (hi); ++g_n2; }                                    \
+    }                                                                                                                 \
+  while (0)
+#define GEO_SET3(ra_, a_, rb_, lo, hi)                                                                                \
+  do                                                                                                                  \
+    {                                                                                                                 \
+      __CPROVER_assert((rb_) >= (ra_) && (rb_) <= num_rings - 1, "fan_indices[ra][a][rb] inside the range of rb");    \
+      if ((ra_) == g_ra && (a_) == g_a && (rb_) == g_rb) { g_r3_lo = (lo); g_r3_hi = (hi); ++g_n3; }                  \
+    }                                                                                                                 \
+  while (0)
+#define GG_IN (g_ra >= 0 && g_ra < num_axial_crystals_per_block && g_a >= 0 && g_a < half_num_transaxial_crystals_per_block)
+#define GG_RB_IN (g_rb >= g_ra && g_rb <= num_rings - 1)
+#define GEO_ARGS_OK (num_detectors_per_ring >= 2 && num_detectors_per_ring <= 4096 && num_rings >= 1 && num_rings <= 4096 && num_axial_crystals_per_block >= 1 \
+                     && num_axial_crystals_per_block <= num_rings && half_num_transaxial_crystals_per_block >= 1 && half_num_transaxial_crystals_per_block <= num_detectors_per_ring)
+#define CONTRACT_K_geo_ctor                                                                                           \
+  __CPROVER_requires(__CPROVER_is_fresh(self, sizeof(*self)) && GEO_ARGS_OK && g_n1 == 0 && g_n2 == 0 && g_n3 == 0 && G_BOUNDED) \
+  __CPROVER_assigns(*self, g_r0_lo, g_r0_hi, g_r1_lo, g_r1_hi, g_r2_lo, g_r2_hi, g_r3_lo, g_r3_hi, g_n1, g_n2, g_n3)   \
+  __CPROVER_ensures(self->num_rings == num_rings && self->num_detectors_per_ring == num_detectors_per_ring            \
+                    && self->num_axial_crystals_per_block == num_axial_crystals_per_block && self->half_num_transaxial_crystals_per_block == half_num_transaxial_crystals_per_block) \
+  __CPROVER_ensures(g_r0_lo == 0 && g_r0_hi == num_axial_crystals_per_block - 1)                                       \
+  __CPROVER_ensures(GG_IN ? (g_n1 == 1 && g_r1_lo == 0 && g_r1_hi == half_num_transaxial_crystals_per_block - 1 && g_n2 == 1 && g_r2_lo == g_ra && g_r2_hi == num_rings - 1) : (g_n2 == 0)) \
+  __CPROVER_ensures((GG_IN && GG_RB_IN) ? (g_n3 == 1 && g_r3_lo == g_a && g_r3_hi == g_a + num_detectors_per_ring - 1) : g_n3 == 0)
+#define GT_DONE_RA(ra_) (g_ra >= 0 && g_ra < (ra_) && g_a >= 0 && g_a < half_num_transaxial_crystals_per_block)
+#define GT_DONE_A(ra_, a_) (GT_DONE_RA(ra_) || (g_ra == (ra_) && g_a >= 0 && g_a < (a_)))
+#define G_R2_OK (g_n2 == 1 ==> (g_r2_lo == g_ra && g_r2_hi == num_rings - 1))
+#define G_R3_OK (g_n3 == 1 ==> (g_r3_lo == g_a && g_r3_hi == g_a + num_detectors_per_ring - 1))
+#define LC_K_geo_ctor_0                                                                                               \
+  __CPROVER_assigns(ra, g_r1_lo, g_r1_hi, g_r2_lo, g_r2_hi, g_r3_lo, g_r3_hi, g_n1, g_n2, g_n3)                        \
+  __CPROVER_loop_invariant(ra >= 0 && ra <= num_axial_crystals_per_block)                                              \
+  __CPROVER_loop_invariant(g_n1 == ((g_ra >= 0 && g_ra < ra) ? 1 : 0) && (g_n1 == 1 ==> (g_r1_lo == 0 && g_r1_hi == half_num_transaxial_crystals_per_block - 1))) \
+  __CPROVER_loop_invariant(g_n2 == (GT_DONE_RA(ra) ? 1 : 0) && G_R2_OK && g_n3 == ((GT_DONE_RA(ra) && GG_RB_IN) ? 1 : 0) && G_R3_OK) \
+  __CPROVER_decreases(num_axial_crystals_per_block - ra)
+#define LC_K_geo_ctor_1                                                                                               \
+  __CPROVER_assigns(a, g_r2_lo, g_r2_hi, g_r3_lo, g_r3_hi, g_n2, g_n3)                                                 \
+  __CPROVER_loop_invariant(a >= 0 && a <= half_num_transaxial_crystals_per_block)                                      \
+  __CPROVER_loop_invariant(g_n2 == (GT_DONE_A(ra, a) ? 1 : 0) && G_R2_OK && g_n3 == ((GT_DONE_A(ra, a) && GG_RB_IN) ? 1 : 0) && G_R3_OK) \
+  __CPROVER_decreases(half_num_transaxial_crystals_per_block - a)
+#define LC_K_geo_ctor_2                                                                                               \
+  __CPROVER_assigns(rb, g_r3_lo, g_r3_hi, g_n3)                                                                        \
+  __CPROVER_loop_invariant(rb >= ra && rb <= num_rings)                                                                \
+  __CPROVER_loop_invariant(g_n3 == (((GT_DONE_A(ra, a) && GG_RB_IN) || (g_ra == ra && g_a == a && g_rb >= ra && g_rb < rb)) ? 1 : 0) && G_R3_OK) \
+  __CPROVER_decreases(num_rings - rb)
 #endif
